@@ -1,9 +1,9 @@
 """C18"""
 PROPERTY = "C18"
 LEVEL = "proof"
-FUNCTIONS = []
+FUNCTIONS = ['uxarray.grid.dual._order_nodes']
 STANDINS = ["dual"]
 ASSUMPTIONS = []
 EXPLANATION = ""
-LEVEL_TEXT = 'bounded stand-in only: dual of 18 closed and ~19 partial meshes against an independent dual construction (corner sets, ccw order, shared edges, padding, data carry-over, JIT vs py_func)'
-LEVEL_NOTE = 'no function under contract yet'
+LEVEL_TEXT = '_order_nodes proved with three loop invariants: the ordered ring keeps the starting corner, every entry is one of the faces meeting at the node or padding (no invented corner), padding beyond the valence; that the ring is a complete counter-clockwise permutation with consecutive faces sharing an edge, construct_faces bookkeeping and the data carry-over are bounded (18 closed + ~19 partial meshes against an independent dual)'
+LEVEL_NOTE = 'A-REAL/A-TRIG for the angle computation (no obligation depends on the angle values); `is not INT_FILL_VALUE` read with CPython semantics; permutation completeness needs distinct angles and is not under contract'
